@@ -7,7 +7,7 @@
    Container = name -> bytes map with cfb's comparison modelled over ASCII (DESIGN 2.3); cfb's Unicode upper-casing of
    non-ASCII letters is outside the model (names equal under it are excluded by the property itself).
    Statements only; every proof is `exact <lemma>` from theories/. *)
-From MsiModel Require Import Base Sexp Value Expr Category Column CodePage Pool Table Container StreamName StreamNameProofs Propset Summary Query Package StreamProofs.
+From MsiModel Require Import Base Sexp Value Expr Category Column CodePage Pool Table Container StreamName StreamNameProofs Propset Summary Query Package StreamProofs PoolProofs TableProofs QueryProofs DbInv CatalogProofs PropsetCodecProofs PackageProofs PkgInv UpdateRefine PkgInv2 InsertRefine DeleteRefine DmlPkgProofs DropTableProofs MiscOpsProofs ReopenProofs CreateTableLemmas CreateTableProofs Reach ReachStreams.
 From MsiGen Require Import GenConsts GenStreamName.
 Open Scope N_scope.
 
@@ -144,6 +144,22 @@ Theorem C11_signature_removed :
   forall k : pkg, pkg_has_signature (pkg_remove_signature k) = false.
 Proof. exact remove_signature_removes. Qed.
 
+(* on every reachable package each container entry is a protected entry, a table / pool stream, or the packed form of a valid stream name; entry names are pairwise distinct *)
+Theorem C11_reachable_entries :
+  forall (prof : profile) (k : pkg),
+         reachable prof k -> entries_accounted k /\ NoDup (map name_key (ct_names (k_cont k))).
+Proof. exact reachable_entries_accounted. Qed.
+
+(* hence streams() lists exactly the names for which has_stream holds *)
+Theorem C11_reachable_listing :
+  forall (prof : profile) (k : pkg) (n : str),
+         reachable prof k -> In n (pkg_streams k) <-> pkg_has_stream k n = true.
+Proof. exact reachable_listing. Qed.
+
+Theorem C11_reachable_listing_nodup :
+  forall (prof : profile) (k : pkg), reachable prof k -> NoDup (pkg_streams k).
+Proof. exact reachable_listing_nodup. Qed.
+
 Print Assumptions C11_constants.
 Print Assumptions C11_reserved.
 Print Assumptions C11_codec.
@@ -163,3 +179,6 @@ Print Assumptions C11_total.
 Print Assumptions C11_frame.
 Print Assumptions C11_signature_frame.
 Print Assumptions C11_signature_removed.
+Print Assumptions C11_reachable_entries.
+Print Assumptions C11_reachable_listing.
+Print Assumptions C11_reachable_listing_nodup.
